@@ -12,6 +12,11 @@ class MachineryError(Exception):
     pass
 
 
+class TooManyViolations(BaseException):
+    """Raised to cut a run short once enough violations are recorded; the run still finishes with exit 1."""
+    pass
+
+
 def seed():
     try:
         return int(os.environ.get("VERIF_SEED", "0"))
@@ -251,6 +256,9 @@ def load_findings(pid):
 
 # ------------------------------------------------------------------ result / evidence
 
+CURRENT = None
+
+
 class Run(object):
     """Collects the verdict of one check run and writes evidence."""
     def __init__(self, pid, level):
@@ -267,6 +275,29 @@ class Run(object):
         self.known = load_findings(pid)
         self._distinct = set()
         self.notes = {}
+        self.max_violations = 300
+        global CURRENT
+        CURRENT = self
+        self._start_watchdog()
+
+    def _start_watchdog(self):
+        import threading
+        limit = float(os.environ.get("VERIF_WATCHDOG_S", "1500" if self.tier == "quick" else "14000"))
+
+        def fire():
+            # On the unchanged tree every check finishes far inside this limit; an overrun means the
+            # implementation under test hangs or blows up (e.g. layers wired into a cycle).
+            self.violations.append(("watchdog:timeout", "check did not finish within %.0f s: the code under test hangs or "
+                                    "blows up on a case the specification says terminates" % limit, {"limit_s": limit}))
+            try:
+                self.finish()
+            finally:
+                sys.stdout.flush()
+                os._exit(1)
+        t = threading.Timer(limit, fire)
+        t.daemon = True
+        t.start()
+        self._watchdog = t
 
     def add_tlc(self, res):
         self.cov["states"] += res.distinct
@@ -289,9 +320,15 @@ class Run(object):
                 self.known_hits[f["id"]][1] += 1
                 return False
         self.violations.append((signature, description, replay))
+        if len(self.violations) >= self.max_violations:
+            raise TooManyViolations()
         return True
 
     def finish(self):
+        try:
+            self._watchdog.cancel()
+        except Exception:
+            pass
         self.cov["distinct_nontrivial"] = len(self._distinct)
         rdir = os.path.join(VERIF, "replays", self.pid)
         for f, n in self.known_hits.values():
